@@ -87,7 +87,11 @@ func encodeWithHTTPCode(_ context.Context, err error) (string, []string, proto.M
 func decodeWithHTTPCode(
 	_ context.Context, cause error, _ string, _ []string, payload proto.Message,
 ) error {
-	wp := payload.(*EncodedHTTPCode)
+	wp, ok := payload.(*EncodedHTTPCode)
+	if !ok {
+		// Missing or unexpected payload: let DecodeError use the opaque type.
+		return nil
+	}
 	return &withHTTPCode{cause: cause, code: int(wp.Code)}
 }
 
